@@ -468,7 +468,7 @@ func (pc *parseCase) randStopAndID(r *rng.R) {
 
 var parseNameChoices = []string{"data", "data", "data", "data", "id", "id", "event", "event", "retry", "retry",
 	"data ", "Data", "datax", "dat", "", "i d", "ID", "retry ", "events", parseBOM + "data", "\xEF\xBBdata", "comment"}
-var parseValuePieces = []string{"a", "b", "x", "hello", "message", "message", "Message", "open", "error", "7", "0", "42", " ", "  ", ":", "+", "-", "\x00", "\xEF", "\xFF", "\xC3\xA9", parseBOM, "é", "\t", "data", "id: x"}
+var parseValuePieces = []string{"\x01", "\x7f", "\x1b[0m", "\x0b", "\x1f", "a", "b", "x", "hello", "message", "message", "Message", "open", "error", "7", "0", "42", " ", "  ", ":", "+", "-", "\x00", "\xEF", "\xFF", "\xC3\xA9", parseBOM, "é", "\t", "data", "id: x"}
 var parseRetryValues = []string{"7", "0", "007", "1500", "9223372036854775807", "9223372036854775808", "18446744073709551616",
 	"99999999999999999999999", "00000000000000000007", "0000000000000000000000000000012", "09223372036854775807", "+7", "-0", "-7", "", " 7", "7 ", "7x", "0x10", "1_000", "１"}
 var parseTerminators = []string{"\n", "\n", "\n", "\r", "\r\n", "\r\n"}
